@@ -1,7 +1,180 @@
-(** C13 — pinned statements (first version). *)
+(** C13 — pinned statements. Nothing but statements, [exact], and assumption audits.
+    Texts are the cleaned, NFKC-normalised texts as cluster lists. [clean_text l] (the premise
+    of the spelling theorems): whitespace-clean on clusters (whitespace characters are exactly
+    U+0020, none leading, trailing or adjacent) and every other character is non-empty and free
+    of whitespace code points. Outside that premise lies the known finding KF3. *)
 From Coq Require Import QArith.
-From TU Require Import Base C13_Model.
+From TU Require Import Base C13_Model C13_Walk C13_F1 C13_Ws C13_Sp C13_Proofs.
+From TU Require C10_Model C11_Model C12_Model C18_Model.
+Open Scope nat_scope.
 
-Theorem f1_zero : forall beta fp fn, f1 beta 0 fp fn = (0%Q, 0 # nz fp, 0 # nz fn).
-Proof. intros. reflexivity. Qed.
-Print Assumptions f1_zero.
+(** ** F-beta *)
+(** every component in [0,1] — for every rational beta (beta enters only as beta^2) *)
+Theorem f1_range : forall beta tp fp fn,
+  let x := f1 beta tp fp fn in
+  (0 <= c1 x /\ c1 x <= 1)%Q /\ (0 <= c2 x /\ c2 x <= 1)%Q /\ (0 <= c3 x /\ c3 x <= 1)%Q.
+Proof. exact f1_range_l. Qed.
+Print Assumptions f1_range.
+
+(** the quotient is only taken over a positive denominator (the two [max(1)] ones are positive by type) *)
+Theorem f1_denominator_pos : forall beta tp fp fn,
+  qpos (ratio tp (tp + fp) + ratio tp (tp + fn)) = true ->
+  (0 < beta * beta * ratio tp (tp + fp) + ratio tp (tp + fn))%Q.
+Proof. exact f1_den_pos_l. Qed.
+Print Assumptions f1_denominator_pos.
+
+Theorem f1_calibrated : forall beta,
+  (forall tp, 0 < tp -> (c1 (f1 beta tp 0 0) == 1 /\ c2 (f1 beta tp 0 0) == 1 /\ c3 (f1 beta tp 0 0) == 1)%Q) /\
+  (forall fp fn, (c1 (f1 beta 0 fp fn) == 0 /\ c2 (f1 beta 0 fp fn) == 0 /\ c3 (f1 beta 0 fp fn) == 0)%Q).
+Proof. intros beta. split; [exact (f1_perfect beta)|exact (f1_no_tp beta)]. Qed.
+Print Assumptions f1_calibrated.
+
+(** ** aggregation *)
+Theorem micro_spec : forall beta vals,
+  micro_f1 beta vals = f1 beta (total tp_of vals) (total fp_of vals) (total fn_of vals).
+Proof. exact micro_spec_l. Qed.
+Print Assumptions micro_spec.
+
+(** mean over the sequences of the per-sequence triple ((1,1,1) for an "empty" sequence), divided by
+    max(#sequences, 1): the empty list gives (0,0,0) *)
+Theorem seq_avg_spec : forall beta vals,
+  (c1 (seq_avg_f1 beta vals) == qsum (map (fun v => c1 (seq_one beta v)) vals) / qlen (length vals) /\
+   c2 (seq_avg_f1 beta vals) == qsum (map (fun v => c2 (seq_one beta v)) vals) / qlen (length vals) /\
+   c3 (seq_avg_f1 beta vals) == qsum (map (fun v => c3 (seq_one beta v)) vals) / qlen (length vals))%Q.
+Proof. exact seq_avg_spec_l. Qed.
+Print Assumptions seq_avg_spec.
+
+Theorem aggregate_range : forall seq_avg beta vals,
+  let x := aggregate seq_avg beta vals in
+  (0 <= c1 x /\ c1 x <= 1)%Q /\ (0 <= c2 x /\ c2 x <= 1)%Q /\ (0 <= c3 x /\ c3 x <= 1)%Q.
+Proof. exact aggregate_range_l. Qed.
+Print Assumptions aggregate_range.
+
+(** ** binary_f1, accuracy, mean edit distance: defining formulas *)
+Theorem binary_f1_spec : forall beta p t,
+  binary_f1 beta p t =
+  if Nat.eqb (length p) (length t)
+  then Some (f1 beta (cnt andb p t) (cnt (fun x y => x && negb y) p t) (cnt (fun x y => negb x && y) p t))
+  else None.
+Proof. exact binary_f1_spec_l. Qed.
+Print Assumptions binary_f1_spec.
+
+Theorem accuracy_spec : forall p t,
+  accuracy p t =
+  (if Nat.eqb (length p) (length t)
+   then Some (ratio (length (filter (fun x => Z.eqb (fst x) (snd x)) (combine p t))) (length p))
+   else None)
+  /\ forall a, accuracy p t = Some a -> (0 <= a /\ a <= 1)%Q.
+Proof. intros p t. split; [exact (accuracy_spec_l p t)|exact (accuracy_range_l p t)]. Qed.
+Print Assumptions accuracy_spec.
+
+Theorem mean_ed_spec : forall nm s t,
+  mean_ed nm s t =
+  (if Nat.eqb (length s) (length t) then Some (qsum (dists nm s t) / qlen (length s))%Q else None)
+  /\ forall m, mean_ed nm s t = Some m -> (0 <= m)%Q /\ (nm = true -> (m <= 1)%Q).
+Proof. intros nm s t. split; [exact (mean_ed_spec_l nm s t)|exact (mean_ed_range_l nm s t)]. Qed.
+Print Assumptions mean_ed_spec.
+
+(** ** whitespace correction *)
+(** counts = |G ∩ P|, |P \ G|, |G \ P| for the duplicate-free, mode-filtered operation sets *)
+Theorem ws_counts_spec : forall m i p t e tp fp fn info,
+  ws_tp_fp_fn m i p t = Some (Some ((e, tp, fp, fn), info)) ->
+  exists gt pr tps fps fns,
+    C10_Model.operations i t = Some gt /\ C10_Model.operations i p = Some pr /\
+    let G := ops_to_set m gt in
+    let P := ops_to_set m pr in
+    NoDup G /\ NoDup P /\
+    (forall k o, In (k, o) G <-> nth_error gt k = Some o /\ in_mode m o = true) /\
+    (forall k o, In (k, o) P <-> nth_error pr k = Some o /\ in_mode m o = true) /\
+    NoDup tps /\ NoDup fps /\ NoDup fns /\
+    (forall x, In x tps <-> In x G /\ In x P) /\
+    (forall x, In x fps <-> In x P /\ ~ In x G) /\
+    (forall x, In x fns <-> In x G /\ ~ In x P) /\
+    tp = length tps /\ fp = length fps /\ fn = length fns /\
+    (e = true <-> G = [] /\ P = []).
+Proof. exact ws_counts_spec_l. Qed.
+Print Assumptions ws_counts_spec.
+
+Theorem ws_pred_eq_target : forall m i p e tp fp fn a b c,
+  ws_tp_fp_fn m i p p = Some (Some ((e, tp, fp, fn), (a, b, c))) -> fp = 0 /\ fn = 0 /\ b = [] /\ c = [].
+Proof. exact ws_pred_eq_target_l. Qed.
+Print Assumptions ws_pred_eq_target.
+
+Theorem ws_unchanged : forall m i t e tp fp fn info,
+  ws_tp_fp_fn m i i t = Some (Some ((e, tp, fp, fn), info)) -> tp = 0 /\ fp = 0.
+Proof. exact ws_unchanged_l. Qed.
+Print Assumptions ws_unchanged.
+
+(** never the panic value, for all inputs (the only possible failure is the Err of whitespace::operations) *)
+Theorem ws_total : forall beta sa m inputs preds targets, ws_f1 beta sa m inputs preds targets <> Panic.
+Proof. exact ws_f1_total_l. Qed.
+Print Assumptions ws_total.
+
+(** ** spelling correction *)
+(** the word walk: for clean non-empty input and prediction and ANY script that applies under
+    spaces_insert_delete_only (not only the optimal one), both [unwrap]s succeed, the walk ends with
+    input_idx = #input words and pred_idx = #predicted words — the closing assertion cannot fire —
+    and if all predicted words are matched every input word is reported correct *)
+Theorem group_walk_ok : forall ic pc ops mp,
+  C10_Model.cleanb ic = true -> C10_Model.cleanb pc = true -> ic <> [] -> pc <> [] ->
+  C12_Model.script_ok sp_flags ops ic pc = true ->
+  exists mg ins pp correct,
+    attribute (C11_Model.word_boundaries ic) ic pc ops = Some (mg, ins)
+    /\ walk (S (length (C11_Model.word_boundaries ic))) (length (C11_Model.word_boundaries ic))
+            mg ins mp 0 0 [] = Some (length (C11_Model.word_boundaries ic), pp, correct)
+    /\ pp = length (C11_Model.word_boundaries pc)
+    /\ ((forall x, x < pp -> mem_nat x mp = true) ->
+        forall w, w < length (C11_Model.word_boundaries ic) -> In w correct).
+Proof. exact group_walk_ok_l. Qed.
+Print Assumptions group_walk_ok.
+
+(** on clean texts the two notions of "word" in the metric coincide *)
+Theorem words_agree : forall l, clean_text l = true ->
+  length (C18_Model.split_ascii_ws (concat l)) = length (C11_Model.word_boundaries l).
+Proof. exact C13_Sp.words_agree. Qed.
+Print Assumptions words_agree.
+
+(** totality: on clean input and prediction (any target) the panic value is never produced, with
+    the repaired zero-word case (D6) included; Err exactly on a length mismatch *)
+Theorem sp_total : forall beta sa inputs preds targets,
+  forallb clean_text inputs = true -> forallb clean_text preds = true ->
+  if same3 inputs preds targets
+  then exists vals, sp_f1 beta sa inputs preds targets = Ok (aggregate sa beta vals)
+       /\ Forall2 (fun x c => match x with (i, p, t) => sp_tp_fp_fn i p t = Some c end) (zip3 inputs preds targets) vals
+  else sp_f1 beta sa inputs preds targets = Err.
+Proof. exact sp_f1_total_l. Qed.
+Print Assumptions sp_total.
+
+Theorem sp_pred_eq_target : forall ic pc e tp fp fn,
+  clean_text ic = true -> clean_text pc = true ->
+  sp_tp_fp_fn ic pc pc = Some (e, tp, fp, fn) -> fp = 0 /\ fn = 0.
+Proof. exact sp_pred_eq_target_l. Qed.
+Print Assumptions sp_pred_eq_target.
+
+Theorem sp_unchanged : forall ic tc e tp fp fn, sp_tp_fp_fn ic ic tc = Some (e, tp, fp, fn) -> tp = 0.
+Proof. exact sp_unchanged_l. Qed.
+Print Assumptions sp_unchanged.
+
+(** ** the executable statement holds of the model's own output *)
+Theorem check_run : forall v, premise_C13 v = true -> check_C13 v (run_C13 v) = true.
+Proof. exact check_run_l. Qed.
+Print Assumptions check_run.
+
+(** ** non-vacuity *)
+Definition ex_s (l : list N) : list cluster := singletons l.
+(** "ab c" and "a b" are clean texts *)
+Example clean_text_witness : clean_text (ex_s [97; 98; 32; 99]%N) = true /\ clean_text (ex_s [97; 32; 98]%N) = true.
+Proof. vm_compute. split; reflexivity. Qed.
+(** the hypotheses of [group_walk_ok] with a NON-optimal script: "a b" -> "ab c" by deleting the space,
+    inserting a space and inserting "c"; and with the optimal one *)
+Example group_walk_witness :
+  C12_Model.script_ok sp_flags [(C12_Model.EDelete, 1, 1); (C12_Model.EInsert, 3, 2); (C12_Model.EInsert, 3, 3)]
+                      (ex_s [97; 32; 98]%N) (ex_s [97; 98; 32; 99]%N) = true
+  /\ C12_Model.operations sp_flags (ex_s [97; 32; 98]%N) (ex_s [97; 98; 32; 99]%N)
+     = Some [(C12_Model.EInsert, 1, 1); (C12_Model.EReplace, 2, 3)].
+Proof. vm_compute. split; reflexivity. Qed.
+(** a spelling-F1 input (one triple "a b" / "" / "a b", the D6 witness) meeting the premise of [check_run] *)
+Example premise_witness :
+  premise_C13 (L [I 4; L [L [I 1; I 1]; I 0; I 0];
+                  L [L [L [L [I 97]; L [I 32]; L [I 98]]]; L [L []]; L [L [L [I 97]; L [I 32]; L [I 98]]]]; L []])%Z = true.
+Proof. vm_compute. reflexivity. Qed.
